@@ -562,7 +562,12 @@ func init() {
 		if tier == "thorough" {
 			cfgs = append(storeConfigs(tier, false), Config{Backing: "none", MinMergePct: 0.01}, Config{Backing: "none", MinMergePct: 100, DeferredSort: true})
 		}
-		sp := &G1Spec{Prop: "C11", Alpha: c11Alpha, Configs: cfgs,
+		alpha := c11Alpha
+		if tier != "thorough" {
+			// quick: six of the eight shapes (without "delete A + top-level Set" and "delete one key inside A")
+			alpha = []*BatchSpec{c11Alpha[0], c11Alpha[1], c11Alpha[2], c11Alpha[3], c11Alpha[5], c11Alpha[7]}
+		}
+		sp := &G1Spec{Prop: "C11", Alpha: alpha, Configs: cfgs,
 			Steps: []string{"M", "MA", "Pb", "Pe", "R"}, Devs: []string{"m1", "p1"},
 			Roots: [][]string{{"B0", "M", "Pb", "Pe", "R"}},
 			MaxB:  3, MaxD: 9, MaxK: 1, MaxR: 1, Deadline: tierDeadline(tier),
